@@ -1,7 +1,7 @@
 (* C12 — correspondence / property evaluation on histories observed on the
    implementation.  Executable only. *)
 From Coq Require Import List ZArith Bool.
-From GZ Require Export Lib.CheckLib C12.Model C12.Concrete C12.Api C12.Client C12.Lin.
+From GZ Require Export Lib.CheckLib C12.Model C12.Concrete C12.Api C12.Client C12.Lin C12.Deliver.
 From GZ Require C16.ModelW.
 Import ListNotations.
 Open Scope Z_scope.
@@ -20,6 +20,9 @@ Inductive case :=
 (* another client (the cache cleaner): requests and callbacks per driver step, and the
    ids of the tasks the cleaner invoked during the step *)
 | CTrace (n i : Z) (segs : list (list op * fired * list Z))
+(* the wheel with execute callbacks held open by the controller across later operations:
+   per operation, the callbacks that STARTED during it and the result *)
+| CGated (n i : Z) (hold : list Z) (ops : list gop) (obs : list (fired * res))
 (* free-running goroutines: stamped calls (all accepted) and ticks with their callbacks *)
 | CFree (n i : Z) (ops : list ev) (ticks : list tk).
 
@@ -138,6 +141,9 @@ Definition agrees (c : case) : bool :=
     list_eqb pairs_eqb (canon (run (init n i) t)) (canon (crun (cinit n i) t))
     && trace_ok i [] (map fst segs)
   | CFree n i ops ticks => free_ok i ops ticks
+  | CGated n i hold ops obs =>
+    (* the pointer-level model gives the order of the callbacks inside a batch *)
+    list_eqb fr_eqb (grun acstep hold (mkD (acinit n i) [] []) ops) obs
   end.
 
 (* the property, on the implementation's own observations *)
@@ -163,6 +169,17 @@ Definition prop_ok (c : case) : bool :=
     else true
   | CFree n i ops ticks =>
     if free_in_scope i ops then (1 <=? n) && (1 <=? i) && free_ok i ops ticks else true
+  | CGated n i hold ops obs =>
+    if forallb (aop_in_scope i) (calls ops) then
+      let fs := gfired (asp_step i) (false, []) ops in
+      let ds := map fst obs in
+      (* results as over the due-map; no callback before its timer fired; once every gate is
+         open, every fired timer has been delivered exactly once (none lost, none doubled) *)
+      list_eqb res_eqb (map snd (grun (asp_step i) hold (mkD (false, []) [] []) ops)) (map snd obs)
+      && never_early [] [] ds fs
+      && (if released_all hold ops
+          then pairs_eqb (sort_pairs (concat ds)) (sort_pairs (concat fs)) else true)
+    else true
   end.
 
 Definition model_obs (c : case) : list fired :=
@@ -172,4 +189,5 @@ Definition model_obs (c : case) : list fired :=
   | CCache limit n i h => canon (run (init n i) (concat (map (fun ob => otrace (snd ob)) h)))
   | CTrace n i segs => canon (run (init n i) (concat (map (fun s => fst (fst s)) segs)))
   | CFree n i ops ticks => canon (run (init n i) (map snd ops))
+  | CGated n i hold ops _ => canon (map fst (grun astep hold (mkD (ainit n i) [] []) ops))
   end.
